@@ -240,7 +240,7 @@ func genReq(t *rapid.T) reqCase {
 	return reqCase{Framing: gen.Framing(t), Req: r}
 }
 
-var chkReq = harness.Define("request-roundtrip", genReq, runReq)
+var chkReq = harness.Define("request-roundtrip", genReq, runReq).Repeated(2)
 
 func TestFindings(t *testing.T) {
 	harness.Probe(t, kfParser125, func(f harness.Finding) (bool, string) {
